@@ -84,7 +84,52 @@ pub fn run_case(id: &'static str, f: fn(&mut Rec)) {
 }
 "#;
 
+const COMMON_NOSTD: &str = r#"
+#![allow(unused)]
+use core::fmt::Debug;
+#[derive(Debug, Clone, PartialEq, Default)]
+pub struct Er(pub i64);
+pub struct Rec<'a> { pub case: &'static str, pub checks: usize, pub sink: &'a mut dyn FnMut(&'static str, &str, &dyn Debug, &dyn Debug) }
+impl<'a> Rec<'a> {
+    pub fn eq<T: Debug + PartialEq>(&mut self, label: &str, got: &T, exp: &T) {
+        self.checks += 1;
+        if got != exp { (self.sink)(self.case, label, exp, got); }
+    }
+}
+"#;
+
+/// #![no_std] library crate holding the cases + a std driver binary in the same package (README "no_std" dependencies)
+fn write_crate_nostd(dir: &Path, name: &str, cases: &[&BCase], _opts: &BOpts) {
+    let src = dir.join("src");
+    std::fs::create_dir_all(src.join("bin")).unwrap();
+    std::fs::write(
+        dir.join("Cargo.toml"),
+        format!("[package]\nname = \"{}\"\nversion = \"0.0.0\"\nedition = \"2021\"\n\n[dependencies]\no2o-macros = {{ path = \"{}/o2o-macros\" }}\no2o = {{ path = \"{}\", default-features = false }}\n", name, repo_dir(), repo_dir()),
+    )
+    .unwrap();
+    std::fs::write(src.join("common.rs"), COMMON_NOSTD).unwrap();
+    let mut lib = String::from("#![no_std]\n#![allow(unused)]\npub mod common;\n");
+    for c in cases {
+        lib.push_str(&format!("mod case_{};\n", c.id));
+        std::fs::write(src.join(format!("case_{}.rs", c.id)), c.module.replace("o2o::o2o", "o2o_macros::o2o")).unwrap();
+    }
+    lib.push_str("pub const CASES: &[(&str, fn(&mut common::Rec))] = &[\n");
+    for c in cases {
+        lib.push_str(&format!("    (\"{}\", case_{}::run),\n", c.id, c.id));
+    }
+    lib.push_str("];\n");
+    std::fs::write(src.join("lib.rs"), lib).unwrap();
+    let driver = format!(
+        "fn main() {{\n    std::panic::set_hook(Box::new(|_| {{}}));\n    for (id, f) in {krate}::CASES {{\n        let r = std::panic::catch_unwind(|| {{ let mut sink = |case: &'static str, label: &str, exp: &dyn std::fmt::Debug, got: &dyn std::fmt::Debug| println!(\"FAIL\\t{{}}\\t{{}}\\t{{:?}}\\t{{:?}}\", case, label, exp, got); let mut r = {krate}::common::Rec {{ case: id, checks: 0, sink: &mut sink }}; f(&mut r); r.checks }});\n        match r {{ Ok(n) => println!(\"DONE\\t{{}}\\t{{}}\", id, n), Err(_) => println!(\"PANIC\\t{{}}\\tpanicked\", id) }}\n    }}\n}}\n",
+        krate = name
+    );
+    std::fs::write(src.join("bin").join(format!("{}_driver.rs", name)), driver).unwrap();
+}
+
 fn write_crate(dir: &Path, name: &str, cases: &[&BCase], opts: &BOpts) {
+    if opts.no_std {
+        return write_crate_nostd(dir, name, cases, opts);
+    }
     let src = dir.join("src");
     std::fs::create_dir_all(&src).unwrap();
     let feat = if opts.features.is_empty() { String::new() } else { format!(", default-features = false, features = [\"{}\"]", opts.features) };
@@ -163,7 +208,7 @@ pub fn run_batch(cases: &[BCase], opts: &BOpts) -> Result<BTreeMap<String, BStat
     for (i, c) in cases.iter().enumerate() {
         alive[i % ncr].push(c);
     }
-    let members: Vec<String> = (0..ncr).map(|i| format!("b{:02}", i)).collect();
+    let members: Vec<String> = (0..ncr).map(|i| format!("{}{:02}", if opts.no_std { "ns" } else { "b" }, i)).collect();
     std::fs::write(
         ws.join("Cargo.toml"),
         format!("[workspace]\nresolver = \"2\"\nmembers = [{}]\n\n[profile.dev]\nopt-level = 0\ndebug = false\nincremental = false\npanic = \"unwind\"\n", members.iter().map(|m| format!("\"{}\"", m)).collect::<Vec<_>>().join(", ")),
@@ -262,7 +307,7 @@ pub fn run_batch(cases: &[BCase], opts: &BOpts) -> Result<BTreeMap<String, BStat
         if alive[i].is_empty() {
             continue;
         }
-        let bin = format!("{}/debug/{}", target, m);
+        let bin = if opts.no_std { format!("{}/debug/{}_driver", target, m) } else { format!("{}/debug/{}", target, m) };
         let out = Command::new(&bin).output().map_err(|e| format!("cannot run {}: {}", bin, e))?;
         if !out.status.success() {
             return Err(format!("batch binary {} exited with {:?}: {}", m, out.status.code(), crate::xp::trunc(&String::from_utf8_lossy(&out.stderr), 500)));
